@@ -37,6 +37,13 @@ Line protocol for C16. One case = one op line.
     out: `download child=ok|err`, `observations bad=<n>`, `final dest=absent|complete|partial:<len>`,
     `retry child=ok|err dest=<class>`.
 
+`symindexfault fsize=<K> funcs=<F> isize=<I> seed=<s>`
+    one `SymbolManager` in its own process loads a local `.sym`; writing the `I`-byte `.symindex`
+    (breakpad.rs:204-222, one `write_all` + `flush` over `tokio::fs::File`) fails past byte K (RLIMIT_FSIZE);
+    the symbol map itself still loads (the index is also kept in memory); then a fault-free retry.
+    out: `symindexfault lookup=ok`, `observations bad=<n>`, `final symindex=absent|complete|partial:<len>`,
+    `retry lookup=ok symindex=complete`.
+
 The judge evaluates the statement of C16 on the implementation's lines only (no model involved).
 -/
 namespace C16
@@ -366,11 +373,26 @@ def simDownload (ws : List String) : List String :=
   [l1, s!"observations bad={sim.bad}", l3,
    s!"retry child={if r = "created" ∨ r = "existing" then "ok" else "err"} dest={sim.destClass}"]
 
+def simSymindexFault (ws : List String) : List String :=
+  let isize := kvNat ws "isize" 0
+  let k := kvNat ws "fsize" 0
+  -- one piece; the write succeeds iff the whole index fits below the limit
+  let env : DL.Env := ⟨fun _ => decide (isize ≤ k), fun _ => 0⟩
+  let fate : Fate := match (DL.run env true [some [1]]).1 with
+    | .ok _ => .ok
+    | _ => .fail 1
+  let cfg : Cfg := { fates := [fate, .ok], sizes := [1] }
+  let sim := drain cfg {} [0]
+  let l3 := s!"final symindex={sim.destClass}"
+  let sim := drain cfg sim [1]
+  ["symindexfault lookup=ok", s!"observations bad={sim.bad}", l3, s!"retry lookup=ok symindex={sim.destClass}"]
+
 def model (ls : List String) : List String :=
   match ls with
   | [l] =>
     let ws := words l
     match ws.head? with
+    | some "symindexfault" => simSymindexFault ws
     | some "download" => simDownload ws
     | some "trace" => simTrace ws
     | some "round" => simRound ws
@@ -439,11 +461,22 @@ def judgeDownload (_ws impl : List String) : Bool × String :=
     else (true, "ok")
   | _, _, _, _ => (false, "missing summary lines")
 
+def judgeSymindexFault (_ws impl : List String) : Bool × String :=
+  match findLine impl "symindexfault", findLine impl "observations", findLine impl "final", findLine impl "retry" with
+  | some _, some b, some f, some r =>
+    let dest := (kv f "symindex").getD "?"
+    if kvNat b "bad" 1 ≠ 0 then (false, s!"the .symindex was observed at its final path in a partial state ({kvNat b "bad" 1} observations)")
+    else if dest ≠ "absent" ∧ dest ≠ "complete" then (false, s!"after the failed write the final path holds {dest}: neither absent nor the complete index")
+    else if (kv r "symindex").getD "?" ≠ "complete" then (false, s!"after a fault-free retry the .symindex is {(kv r "symindex").getD "?"}")
+    else (true, "ok")
+  | _, _, _, _ => (false, "missing summary lines")
+
 def judge (ops impl : List String) : Bool × String :=
   match ops with
   | [l] =>
     let ws := words l
     match ws.head? with
+    | some "symindexfault" => judgeSymindexFault ws impl
     | some "download" => judgeDownload ws impl
     | some "trace" => judgeTrace ws impl
     | some "round" => judgeRound ws impl
